@@ -71,6 +71,7 @@ Inductive event :=
 | CleanupDone (p : nat)
 | ExecCall (c : ctx) (tid r p : nat) (f : flavour)
 | ExecEnd (p : nat) (o : outcome) (same : bool)
+| ExecAbort (p : nat)                                    (* execute cut short by the termination of the runtime *)
 | Quiesce.                                               (* the harness observed a quiet period: nothing may be owed *)
 
 Inductive pst :=
@@ -440,11 +441,19 @@ Definition step_core (s : rt) (e : event) : option rt :=
   | ExecCall c tid r p f =>                           (* service.py:133-142, meta_runner.py:56-63 *)
       match p_st (pay s p) with
       | PUnknown =>
-          if phase_up (r_phase (run_ s r)) then
+          (* property domain: the runtime is running; calls issued while it is going down are admitted
+             and may be broken off (ExecAbort) *)
+          if negb (match r_phase (run_ s r) with Idle | Rejected => true | _ => false end) then
             Some (set_pay s p (mkP PExecPending f r (OrExec tid) 0 0 (p_starts (pay s p)) (p_cancels (pay s p)) (p_cleans (pay s p)) false false))
           else None
       | _ => None
       end
+  | ExecAbort p =>                                    (* the runtime is going down: the pending call is broken off *)
+      let i := pay s p in
+      if is_exec (p_origin i) && negb (p_exec_ret i) && negb (phase_up (r_phase (run_ s (p_owner i)))) then
+        Some (set_pay s p (mkP (p_st i) (p_flav i) (p_owner i) (p_origin i) (p_tid i) (p_loop i)
+                               (p_starts i) (p_cancels i) (p_cleans i) (p_adopting i) true))
+      else None
   | ExecEnd p o same =>
       let i := pay s p in
       match p_st i with
